@@ -600,6 +600,16 @@ Proof.
   - apply (tP _ _ _ T).
 Qed.
 
+(* a detached object has no Parent reference *)
+Lemma detached_plink_none : forall w O K x ox, keys_ok w -> TreeG w O K -> O x = Some None -> get_obj w x = Some ox ->
+  o_plink ox = None.
+Proof.
+  intros w O K x ox Kw T HO Eox. destruct (o_plink ox) as [pf|] eqn:Ep; [|reflexivity]. exfalso.
+  destruct (proj1 (tP _ _ _ T x ox pf Eox) Ep) as (po & Epo & I).
+  destruct (tC1 _ _ _ T _ _ _ _ Epo I) as (co & rs0 & A1 & _ & _ & [A4 _] & _). rewrite Eox in A1. inversion A1; subst co.
+  unfold epar in A4. rewrite (Kw _ _ Eox), HO in A4. discriminate.
+Qed.
+
 (* ---------- _unparent_object detaches the object ---------- *)
 Lemma TreeG_unparent : forall w O K r f q o rs w', Base w -> TreeG w O K ->
   get_obj w f = Some o -> o_region o = r -> get_rs w r = Some rs -> aget (o_lid o) (r_local rs) = Some f ->
@@ -1889,10 +1899,18 @@ Proof.
   { intros p ls El Hi. destruct (tO1 _ _ _ T _ _ _ _ _ Ers El Hi) as (_ & _ & cf & co & A3 & A4 & A5).
     rewrite Eidx in A3. inversion A3; subst cf. rewrite Eox in A4. inversion A4; subst co. exact (NB _ A5). }
   set (wm := mkW (w_full w') (w_regions w) (w_futs w)).
+  assert (PLN : o_plink ox = None).
+  { destruct (o_plink ox) as [pf|] eqn:Ep; [|reflexivity]. exfalso.
+    destruct (proj1 (tP _ _ _ T x ox pf Eox) Ep) as (po & Epo & I).
+    destruct (tC1 _ _ _ T _ _ _ _ Epo I) as (co & rs0 & A1 & _ & _ & A4 & _). rewrite Eox in A1. inversion A1; subst co. exact (NB _ A4). }
   assert (TM : TreeG wm O K).
   { eapply tframe_TreeG; [|exact T]. split; [|reflexivity]. intros g. change (get_obj wm g) with (get_obj w' g).
-    rewrite G. destruct (get_obj w g) as [og|] eqn:Eg; [|reflexivity]. cbn. unfold with_ch, tcore.
-    destruct (is_parent_key rs q g) eqn:Pk; [|reflexivity]. rewrite remove1k_notin; [reflexivity|]. eapply NOC; eauto. }
+    pose proof (G g) as Gg. pose proof (unparent_plink _ _ _ _ _ _ _ Kw Eox Ers H g) as Pg.
+    destruct (get_obj w' g) as [a'|], (get_obj w g) as [og|] eqn:Eg; cbn in Gg, Pg; try discriminate; [|reflexivity].
+    cbn. unfold tcoreP. f_equal. f_equal.
+    - injection Gg as G1 G2 G3 G4 G5. unfold tcore. rewrite G1, G2, G3, G4, G5.
+      destruct (is_parent_key rs q g) eqn:Pk; [|reflexivity]. rewrite remove1k_notin; [reflexivity|]. eapply NOC; eauto.
+    - destruct (g =? x) eqn:Q; [|congruence]. apply N.eqb_eq in Q. subst g. rewrite Eox in Eg. inversion Eg; subst og. congruence. }
   eapply TreeG_orphans_drop; [| |exact TM].
   - intros g. reflexivity.
   - intros r0. change (get_rs wm r0) with (get_rs w r0). rewrite R. destruct ((r0 =? r) && negb (q =? 0)) eqn:Q.
@@ -1993,10 +2011,10 @@ Qed.
 (* ---------- a detached, un-indexed, childless object may change any field but its full id ---------- *)
 Lemma TreeG_set_detached : forall w O K x o', Base w -> TreeG w O K -> O x = Some None ->
   (forall r rs c, get_rs w r = Some rs -> aget c (r_local rs) <> Some x) ->
-  (exists ox, get_obj w x = Some ox) -> o_full o' = x -> o_children o' = [] ->
+  (exists ox, get_obj w x = Some ox) -> o_full o' = x -> o_children o' = [] -> o_plink o' = None ->
   TreeG (set_obj w o') O K.
 Proof.
-  intros w O K x o' [Kw W2] T HO Hun (ox & Eox) Hf Hc.
+  intros w O K x o' [Kw W2] T HO Hun (ox & Eox) Hf Hc Hpl.
   assert (GN : forall g a, get_obj (set_obj w o') g = Some a -> (g = x /\ a = o') \/ (g <> x /\ get_obj w g = Some a)).
   { intros g a E. rewrite get_obj_set_obj, Hf in E. destruct (g =? x) eqn:Q.
     - apply N.eqb_eq in Q. inversion E. subst. left. auto.
@@ -2022,16 +2040,25 @@ Proof.
   - intros r rs c cf co p E1 E2 E3 B Hn. rewrite get_rs_set_obj in E1.
     destruct (GN _ _ E3) as [[-> _]|[_ E3']]; [destruct (Hun _ _ _ E1 E2)|]. eapply (tO2 _ _ _ T); eauto.
   - intros r rs p ls E1 E2. rewrite get_rs_set_obj in E1. eapply (tO3 _ _ _ T); eauto.
+  - intros g a pf E. destruct (GN _ _ E) as [[-> ->]|[Hne E0]].
+    + rewrite Hpl. split; [discriminate|]. intros (po & Epo & I). exfalso.
+      destruct (GN _ _ Epo) as [[-> ->]|[_ Epo0]]; [rewrite Hc in I; destruct I|].
+      destruct (tC1 _ _ _ T _ _ _ _ Epo0 I) as (co & rs & A1 & _ & _ & A4 & _). exact (NBx _ _ A1 A4).
+    + rewrite (tP _ _ _ T g a pf E0). split.
+      * intros (po & Epo & I). exists po. split; [|exact I]. apply GO; [exact Epo|]. intro; subst pf.
+        destruct (tC1 _ _ _ T _ _ _ _ Epo I) as (co & rs & _ & _ & _ & _ & A5 & _ & A7). exact (Hun _ _ _ A5 A7).
+      * intros (po & Epo & I). destruct (GN _ _ Epo) as [[-> ->]|[_ Epo0]]; [rewrite Hc in I; destruct I|]. eauto.
 Qed.
 
 (* ---------- second block of _update_existing_object when the region did not change ---------- *)
 Lemma second_block_Tree : forall w1 f o1 o2 nr (b : bool) w3, Idx w1 -> Tree w1 -> get_obj w1 f = Some o1 ->
   o_lid o2 = o_lid o1 -> o_full o2 = o_full o1 -> o_region o2 = o_region o1 -> o_children o2 = o_children o1 ->
+  o_plink o2 = o_plink o1 ->
   o_region o1 = nr -> (b = false -> o_parent o2 = o_parent o1) ->
   (if b then handle_object_reparented (set_obj w1 o2) nr f (o_parent o1) else Some (set_obj w1 o2)) = Some w3 ->
   Tree w3.
 Proof.
-  intros w1 f o1 o2 nr b w3 I T Eo H1 H2 H3 H4 Hr Hb H. pose proof I as (K & A & B). pose proof (K _ _ Eo) as Kf.
+  intros w1 f o1 o2 nr b w3 I T Eo H1 H2 H3 H4 H5 Hr Hb H. pose proof I as (K & A & B). pose proof (K _ _ Eo) as Kf.
   destruct b.
   - destruct (B _ _ Eo) as (rs & Ers & _ & Elx). rewrite Hr in Ers.
     assert (T2 : TreeG (set_obj w1 o2) (oset no_ovr f (Some (o_parent o1))) None).
@@ -2042,7 +2069,7 @@ Proof.
     + rewrite get_obj_set_obj, H2, Kf, N.eqb_refl. reflexivity.
     + congruence.
     + rewrite H1. exact Elx.
-  - inversion H; subst w3. eapply tframe_TreeG; [|exact T]. eapply (tframe_set_obj w1 f o1); [exact Eo| |exact Kf].
+  - inversion H; subst w3. eapply tframe_TreeG; [|exact T]. eapply (tframe_set_obj w1 f o1); [exact Eo| |exact H5|exact Kf].
     unfold tcore. rewrite (Hb eq_refl). congruence.
 Qed.
 
@@ -2116,11 +2143,12 @@ Proof.
       bind_inv H. rename w0 into w3.
       assert (T3 : Tree w3).
       { cbn in C. destruct C as (U1 & U2 & U3 & U4 & U5).
-        eapply (second_block_Tree w f o o2 nr _ w3 I T Eo); [| | | | | |exact E].
+        eapply (second_block_Tree w f o o2 nr _ w3 I T Eo); [| | | | | | |exact E].
         - transitivity nl; [exact U1|symmetry; exact Ql].
         - exact U2.
         - transitivity nr; [exact U3|symmetry; exact Qr].
         - exact U5.
+        - exact (update_properties_plink _ _ _ _ Eu).
         - exact Qr.
         - intros Hb. rewrite andb_true_r in Hb. apply negb_false_iff in Hb. apply N.eqb_eq in Hb.
           transitivity np; [exact U4|exact Hb]. }
@@ -2138,7 +2166,9 @@ Proof.
       assert (UNI : forall r rs c, get_rs w1 r = Some rs -> aget c (r_local rs) <> Some f).
       { intros r rs c E1' E2'. destruct IX1 as (_ & AX & _). destruct (AX _ _ _ _ E1' E2') as [Hne _]. congruence. }
       assert (TG1' : TreeG (set_obj w1 (with_lid o1 nl)) (oset no_ovr f None) None).
-      { eapply TreeG_set_detached; [eapply IdxX_Base; exact IX1|exact TG1| |exact UNI|eauto| |exact Hch1].
+      { assert (Pl1 : o_plink o1 = None).
+        { eapply (detached_plink_none w1 _ None f o1); [apply IX1|exact TG1| |exact E0]. unfold oset. rewrite N.eqb_refl. reflexivity. }
+        eapply TreeG_set_detached; [eapply IdxX_Base; exact IX1|exact TG1| |exact UNI|eauto| |exact Hch1|exact Pl1].
         - unfold oset. rewrite N.eqb_refl. reflexivity.
         - cbn. congruence. }
       assert (IX1' : IdxX (set_obj w1 (with_lid o1 nl)) f).
@@ -2174,11 +2204,12 @@ Proof.
       assert (T3 : Tree w3).
       { rewrite <- P1p, <- Cbp in E3.
         cbn in C. destruct C as (U1 & U2 & U3 & U4 & U5).
-        eapply (second_block_Tree w2 f o1b o2 nr _ w3 I2 T2 E2); [| | | | | |exact E3].
+        eapply (second_block_Tree w2 f o1b o2 nr _ w3 I2 T2 E2); [| | | | | | |exact E3].
         - rewrite U1, Cbl. exact Dl.
         - exact U2.
         - rewrite U3, Cbr, C1r. transitivity nr; [exact Dr|symmetry; exact Qr].
         - exact U5.
+        - exact (update_properties_plink _ _ _ _ Eu).
         - rewrite Cbr, C1r. exact Qr.
         - intros Hb. rewrite andb_true_r in Hb. apply negb_false_iff in Hb. apply N.eqb_eq in Hb.
           transitivity np; [rewrite U4, Cbp, P1p; reflexivity|exact Hb]. }
@@ -2200,9 +2231,12 @@ Proof.
     assert (UNI : forall r rs c, get_rs w1 r = Some rs -> aget c (r_local rs) <> Some f).
     { intros r rs c E1' E2'. destruct IX1 as (_ & AX & _). destruct (AX _ _ _ _ E1' E2') as [Hne _]. congruence. }
     assert (TG2 : TreeG (set_obj w1 o2) (oset no_ovr f None) None).
-    { eapply TreeG_set_detached; [eapply IdxX_Base; exact IX1|exact TG1| |exact UNI|eauto| |congruence].
+    { assert (Pl1 : o_plink o1 = None).
+      { eapply (detached_plink_none w1 _ None f o1); [apply IX1|exact TG1| |exact Eo1]. unfold oset. rewrite N.eqb_refl. reflexivity. }
+      eapply TreeG_set_detached; [eapply IdxX_Base; exact IX1|exact TG1| |exact UNI|eauto| |congruence|].
       - unfold oset. rewrite N.eqb_refl. reflexivity.
-      - congruence. }
+      - congruence.
+      - rewrite (update_properties_plink _ _ _ _ Eu). exact Pl1. }
     assert (IX2 : IdxX (set_obj w1 o2) f).
     { apply IdxX_set_obj; [exact IX1|]. congruence. }
     assert (Eo2 : get_obj (set_obj w1 o2) f = Some o2).
@@ -2249,6 +2283,10 @@ Proof.
     apply GO; [exact A4|]. intro; subst cf. exact (Hun _ _ _ E1 A3).
   - intros r rs c cf co p E1 E2 E3 B Hn. destruct (GN _ _ E3) as [_ E3']. eapply (tO2 _ _ _ T); eauto.
   - intros r rs p ls E1 E2. eapply (tO3 _ _ _ T); eauto.
+  - intros g a pf E. destruct (GN _ _ E) as [Hne E0]. rewrite (tP _ _ _ T g a pf E0). split.
+    + intros (po & Epo & I). exists po. split; [|exact I]. apply GO; [exact Epo|]. intro; subst pf.
+      rewrite Eox in Epo. inversion Epo; subst po. rewrite Hc in I. destruct I.
+    + intros (po & Epo & I). destruct (GN _ _ Epo) as [_ Epo0]. eauto.
 Qed.
 
 (* ---------- KillObject without a cascade ---------- *)
